@@ -204,7 +204,7 @@ class FakeTime:
                 if fn == "garbage_collector.py" and n == "_load_inflight_protection":
                     why = "gcm"
                     break
-                if fn == "garbage_collector.py" and n == "_gc_prefix":
+                if fn == "garbage_collector.py" and n in ("_gc_prefix", "_gc_listed"):
                     why = "gcc"
                     break
         if why:
@@ -267,6 +267,7 @@ class Env:
         self.ndata: Dict[str, int] = {}             # actor -> data files written in this operation
         self.allow_spin = False                     # let lock pollers spin (timeout experiments)
         self.data_age_ms = 0                        # > 0: data files are back-dated by this much when written
+        self.gc_started = False                     # a collection run has begun (no back-dating from here on)
         self.table_root: Optional[str] = None
         self.fault_exc: Callable[[str], BaseException] = lambda what: OSError(f"injected fault: {what}")
 
@@ -435,7 +436,7 @@ def _storage_wrapper(env: Env, op: str, orig: Callable[..., Any]) -> Callable[..
         directive = s.gate("storage", op=op, cls=cls, path=path)
         what = f"{op}({cls}:{path})"
         if isinstance(directive, Fault) and directive.when in ("before", "async"):
-            s.emit({"k": "Fault", "op": op, "cls": cls, "when": directive.when, "kind": directive.kind,
+            s.emit({"k": "Fault", "op": op, "cls": cls, "when": directive.when, "kind": directive.kind, "path": path.strip("/"),
                     "f": env.marker_fid(path) if cls == "marker" else (env.ids.fid(path) if cls in ("data", "man", "list") else 0)})
             if rctx is not None and rctx.get("slot") is not None and rctx["slot"] in s.trace:
                 s.trace.remove(rctx["slot"])
@@ -449,6 +450,9 @@ def _storage_wrapper(env: Env, op: str, orig: Callable[..., Any]) -> Callable[..
                 res = orig(self, path, *args, **kw)
         except BaseException as e:  # noqa: BLE001
             err = e
+        if err is None and op == "list_files" and isinstance(directive, Fault) and directive.when == "escape":
+            res = list(res)
+            res.insert(min(len(res), 1), "../outside/x.parquet")      # a listing that escapes the table root
         # virtual mtimes for files written through the backend
         if err is None and op in ("write_file", "write_file_cas") and env.backend == "local":
             _set_vmtime(env, self, path)
@@ -587,8 +591,9 @@ def _emit_storage_event(env: Env, a: Actor, op: str, cls: str, path: str, args: 
     if op == "read_file_with_etag" and cls == "hint":
         return
     if op == "list_files":
-        lst = sorted(env.ids.fid(p) if classify(p) != "marker" else env.marker_fid(p) for p in (res or [])) if ok else []
-        s.emit({"k": "List", "dir": path.strip("/"), "res": lst, "ok": ok, "err": errname})
+        esc = any(p.startswith("..") for p in (res or [])) if ok else False
+        lst = sorted(env.ids.fid(p) if classify(p) != "marker" else env.marker_fid(p) for p in (res or []) if not p.startswith("..")) if ok else []
+        s.emit({"k": "List", "dir": path.strip("/"), "res": lst, "ok": ok, "err": errname, "esc": esc})
         return
     if op == "get_modified_time":
         if cls == "marker":
@@ -707,8 +712,10 @@ def install(env: Env) -> None:
             except Exception:  # noqa: BLE001
                 pass
         mt = env.clock.peek_ms()
-        if env.data_age_ms:
-            mt -= env.data_age_ms                      # scenario: the data file is already old when written
+        if env.data_age_ms and not env.gc_started:
+            # scenario: the data file is already older than the grace period when written - only possible
+            # for files written before the collection run began (the run is shorter than the grace period)
+            mt -= env.data_age_ms
             try:
                 os.utime(self.storage._resolve_path(file_path), (mt / 1000.0, mt / 1000.0))
             except Exception:  # noqa: BLE001
